@@ -190,8 +190,9 @@ def lin(x):
 
 
 class _Date:
-    def __init__(s, off):
+    def __init__(s, off, time_kept=True):
         s.off = lin(off)
+        s.time_kept = time_kept      # False once the value went through something that returns midnight (today(t), ymd(t), t.date() ...)
 
 
 class _Day:
@@ -222,7 +223,7 @@ def _ev(e, env):
         if isinstance(a, _Date) or isinstance(b, _Date):
             d, k = (a, b) if isinstance(a, _Date) else (b, a)
             if isinstance(k, tuple) and k[0] == 'days' and isinstance(e.op, (ast.Add, ast.Sub)) and (isinstance(e.op, ast.Add) or d is a):
-                return _Date(d.off + k[1] if isinstance(e.op, ast.Add) else d.off - k[1])
+                return _Date(d.off + k[1] if isinstance(e.op, ast.Add) else d.off - k[1], d.time_kept)
             raise AnalysisError('unsupported date arithmetic: %s' % U(e))
         if isinstance(a, _Day) or isinstance(b, _Day):
             k = b if isinstance(a, _Day) else a
@@ -241,8 +242,11 @@ def _ev(e, env):
         if type(e.ops[0]) in ops:
             return ops[type(e.ops[0])]
     if isinstance(e, ast.BoolOp):
-        vals = [_ev(v, env) for v in e.values]
-        return all(vals) if isinstance(e.op, ast.And) else any(vals)
+        for v in e.values:                    # short-circuit, as Python does
+            x = _ev(v, env)
+            if bool(x) != isinstance(e.op, ast.And):
+                return x
+        return x
     if isinstance(e, ast.Call) and isinstance(e.func, ast.Name) and e.func.id in ('min', 'max') and e.args and not e.keywords:
         vals = [lin(_ev(a, env)).concrete() for a in e.args]
         return min(vals) if e.func.id == 'min' else max(vals)
@@ -255,6 +259,8 @@ def _ev(e, env):
         return (env['__s0__'] + t.off.c0) % 7
     if isinstance(e, ast.Call) and N(e) == 'int(bmp[:-1])':
         return env['__n__']
+    if isinstance(e, ast.Call) and call_name(e) in ('today', 'ymd') and len(e.args) == 1 and not e.keywords and isinstance(_ev(e.args[0], env), _Date):
+        return _Date(_ev(e.args[0], env).off, False)          # the same day at midnight
     if isinstance(e, ast.Call) and call_name(e) == 'timedelta' and len(e.args) == 1 and not e.keywords:
         return ('days', lin(_ev(e.args[0], env)))
     if isinstance(e, ast.Call) and call_name(e) == 'timedelta' and not e.args and len(e.keywords) == 1 and e.keywords[0].arg == 'days':
@@ -317,15 +323,47 @@ def c09_3(ctx):
                      witness="dt_bump(thursday, '1d1b')", stmt="'b' branch reads %s" % nm)
             return
     bad = []
+    pending = []
     for s0 in range(7):
         for r in range(5):
             env = dict(t=_Date(0), DAY=_Day(), __s0__=s0, __n__=Lin(r, 5))
             try:
-                _run(pre + body, env)
+                try:
+                    _run(pre + body, env)
+                except TruncDiv:
+                    raise
+                except AnalysisError as ex:
+                    if 'symbolic' not in str(ex):
+                        raise
+                    # the closed form branches on the symbolic count: no proof for every W, but concrete counts can still refute it
+                    for W in range(-4, 5):
+                        cenv = dict(t=_Date(0), DAY=_Day(), __s0__=s0, __n__=Lin(r + 5 * W, 0))
+                        _run(pre + body, cenv)
+                        roll_ = (7 - s0) if s0 > 4 else 0
+                        s1_, k_, left_ = (s0 + roll_) % 7, 0, r + 5 * W
+                        step_ = 1 if left_ > 0 else -1
+                        while left_:
+                            k_ += step_
+                            if (s1_ + k_) % 7 < 5:
+                                left_ -= step_
+                        got_ = cenv['t'].off.c0
+                        ctx.count(1)
+                        if got_ != roll_ + k_:
+                            days = ['Mon', 'Tue', 'Wed', 'Thu', 'Fri', 'Sat', 'Sun']
+                            ctx.fail(fn, body[0], "business-day closed form is wrong: from a %s, %db moves %d days, counting weekdays one by one gives %d" % (days[s0], r + 5 * W, got_, roll_ + k_),
+                                     witness=dict(start_weekday=s0, n=r + 5 * W, moved=got_, expected=roll_ + k_), stmt=ast.Module(body, []))
+                            return
+                    pending.append(ex)
+                    continue
             except TruncDiv as ex:
                 ctx.count(1)
                 ctx.fail(fn, body[0], 'the closed form divides with `%s`, which truncates toward zero: for a negative count that is not a multiple of 5 the number of whole weeks is one too small (floor division // is required), so -1b from a Monday lands on Sunday' % ex,
                          witness="dt_bump(monday, '-1b')", stmt=str(ex))
+                return
+            if not env['t'].time_kept:
+                ctx.count(1)
+                ctx.fail(fn, body[0], "the 'b' branch sends the date through a function that returns midnight (today/ymd): the time of day of t is lost, while every other unit keeps it",
+                         witness="dt_bump(datetime.datetime(2020, 1, 4, 9, 30), '1b')", stmt='time of day dropped in the b branch')
                 return
             off = env['t'].off
             roll = (7 - s0) if s0 > 4 else 0
@@ -342,6 +380,8 @@ def c09_3(ctx):
             if (off.c0, off.c1) != (spec.c0, spec.c1) or land >= 5:
                 bad.append(dict(start_weekday=s0, n='%d + 5W' % r, offset_days=repr(off), expected=repr(spec), lands_on_weekday=land))
     ctx.fact('abstract_cases', 35)
+    if pending and not bad:
+        raise pending[0]
     if bad:
         days = ['Mon', 'Tue', 'Wed', 'Thu', 'Fri', 'Sat', 'Sun']
         b0 = bad[0]
